@@ -3,7 +3,7 @@
    within the 488-byte record area, only the first block may be empty, block numbers and keys stay distinct, and a
    released block is exactly a block that lost its only record - for every history (C07). *)
 From Coq Require Import ZArith List Bool Arith Lia Permutation.
-From ADF Require Import Model.CacheChain.
+From ADF Require Import CPrelude Generated.Leaf Model.CacheChain.
 Import ListNotations.
 
 (* ---- lists of records ---- *)
@@ -99,6 +99,16 @@ Proof.
   induction rs as [|r t IH]; simpl.
   - split; [discriminate|intros [ol H]; discriminate].
   - destruct (Z.eqb (r_key r) k); simpl; [split; [intros _; eexists; reflexivity|reflexivity]|exact IH].
+Qed.
+
+(* the test by which adfAddInCache decides between appending to the last block and linking a new one (condition slice
+   REGENERATED from adf_cache.c) is the model's *)
+Theorem add_fits_is_librarys : forall (rs : list crec) (r : crec),
+  d_adfAddInCache_fits (Z.of_nat (r_len r)) (Z.of_nat (used rs)) = 1%Z <-> (used rs + r_len r <=? AREA) = true.
+Proof.
+  intros rs r. unfold d_adfAddInCache_fits, AREA, b2z.
+  destruct (Z.leb_spec (Z.of_nat (used rs) + Z.of_nat (r_len r)) 488); destruct (Nat.leb_spec (used rs + r_len r) 488); try lia;
+    split; intros X; try reflexivity; try discriminate X.
 Qed.
 
 (* ---- invariant ---- *)
